@@ -18,7 +18,7 @@ use soroban_sdk::xdr::ScVal;
 use soroban_sdk::{Address, Env};
 use std::collections::BTreeMap;
 
-const OPS: &[&str] = &["outbound", "inbound", "trust-change", "direct-burn", "minter-mint"];
+const OPS: &[&str] = &["outbound", "inbound", "trust-change", "direct-burn", "minter-mint", "redeliver-executed"];
 const AMOUNTS: &[&str] = &["zero", "negative", "one", "balance", "balance+1", "random"];
 const GAS: &[&str] = &["zero", "negative", "one", "affordable", "unaffordable"];
 const DESTS: &[&str] = &["trusted", "never-trusted", "removed", "hub-chain"];
@@ -139,6 +139,7 @@ pub fn run(ctx: &Ctx, rep: &mut Report) {
         let initial_supply: BTreeMap<[u8; 32], i128> = toks.iter().filter(|t| !t.lock).map(|t| (t.id, if t.label == "native-A" { 1000 } else { 0 })).collect();
         let mut probe_refuses = false;
         let mut alive = true;
+        let mut executed_inbound: Vec<(Vec<u8>, Vec<u8>)> = Vec::new(); // (message id, payload)
         for _ in 0..36 {
             if !alive {
                 alive = false;
@@ -160,7 +161,7 @@ pub fn run(ctx: &Ctx, rep: &mut Report) {
                     }
                 }
             }
-            let op = OPS[rng.weighted(&[10, 8, 2, 2, 2])];
+            let op = OPS[rng.weighted(&[10, 8, 2, 2, 2, 2])];
             let t = toks[rng.usize(toks.len())].clone();
             let user = users[rng.usize(users.len())].clone();
             match op {
@@ -431,11 +432,42 @@ pub fn run(ctx: &Ctx, rep: &mut Report) {
                         w.model.add(&t.addr, &its, -amount);
                     }
                     *received.entry(t.id).or_insert(0) += amount;
+                    if executed_inbound.len() < 6 {
+                        executed_inbound.push((mid.clone(), payload.clone()));
+                    }
                     let recv: Vec<&Ev> = o.events.iter().filter(|e| e.contract == w.its_sc && e.kind() == "interchain_transfer_received").collect();
                     if recv.len() == 1 && mentions(recv[0], &sv_bytes(&t.id)) && mentions(recv[0], &sv_i128(amount)) {
                         rep.event("interchain_transfer_received");
                     } else {
                         rep.count("note:interchain_transfer_received-event-differs");
+                    }
+                }
+                "redeliver-executed" => {
+                    // an inbound transfer that took effect earlier, relayed and delivered once more,
+                    // possibly a very long time later: it must not be credited again
+                    if executed_inbound.is_empty() {
+                        continue;
+                    }
+                    let (mid, payload) = executed_inbound[rng.usize(executed_inbound.len())].clone();
+                    if rng.chance(1, 2) {
+                        let d = if rng.chance(1, 2) { 2_500_000 } else { rng.ledger_jump() };
+                        if w.u.advance(d) {
+                            rep.step(format!("ledger advances by {}", d));
+                            rep.count("advance-ledger");
+                        }
+                    }
+                    let _ = w.approve_for_its(HUB_CHAIN, &mid, &hub_addr, &payload);
+                    let o = w.do_execute(HUB_CHAIN, &mid, &hub_addr, &payload);
+                    rep.count("op:redeliver-executed");
+                    rep.eval("redeliver-executed", &format!("redeliver|{}", o.ok()), true);
+                    rep.step(format!("redelivery of an executed inbound transfer -> ok={}", o.ok()));
+                    if let Some(l) = &o.leak {
+                        rep.violation("failed-inbound-left-trace", l.clone());
+                        break;
+                    }
+                    if o.ok() {
+                        rep.violation("inbound-credited-twice", "an inbound transfer that had already taken effect was executed again after its approval was relayed again".into());
+                        break;
                     }
                 }
                 "trust-change" => {
